@@ -14,7 +14,12 @@ Inductive probe :=
 | PLike (n T : string)              (* $o like T *)
 | PParentStatic (r f g s : string)  (* $o->f(): `return parent::g();`, g: `return static::s();` *)
 | PParentSelf (r f g s : string)    (* ... g: `return self::s();` *)
-| PParentParent (r f g h : string). (* ... g: `return parent::h();` *)
+| PParentParent (r f g h : string)  (* ... g: `return parent::h();` *)
+| PLikeThis (n T : string)          (* $this like T inside a method *)
+| PCatchUnion (n T1 T2 : string)    (* catch (T1 | T2 $e) *)
+| PSEntrySelf (c f s : string)      (* C::f() from top level, f: `return self::s();` *)
+| PSEntryStatic (c f s : string)    (* ... `return static::s();` *)
+| PSEntryParent (c f g : string).   (* ... `return parent::g();` *)
 Inductive ans := ABool (b : bool) | AName (o : option string) | AErr.
 
 Definition probe_kind (p : probe) : nat :=
@@ -22,6 +27,7 @@ Definition probe_kind (p : probe) : nat :=
   | PInstanceof _ _ => 1 | PInstanceofThis _ _ => 2 | PParam _ _ => 3 | PParamThis _ _ => 4 | PCatch _ _ => 5
   | PCall _ _ => 6 | PSelf _ _ _ => 7 | PStatic _ _ _ => 8 | PParent _ _ _ => 9 | PLike _ _ => 10
   | PParentStatic _ _ _ _ => 11 | PParentSelf _ _ _ _ => 12 | PParentParent _ _ _ _ => 13
+  | PLikeThis _ _ => 14 | PCatchUnion _ _ _ => 15 | PSEntrySelf _ _ _ => 16 | PSEntryStatic _ _ _ => 17 | PSEntryParent _ _ _ => 18
   end%nat.
 
 Definition of_bool (o : outcome bool) : ans := match o with Ok b => ABool b | _ => AErr end.
@@ -42,6 +48,11 @@ Definition model_ans (t : table) (p : probe) : ans :=
   | PParentStatic r f g s => of_name (via_parent_static t r f g s)
   | PParentSelf r f g s => of_name (via_parent_self t r f g s)
   | PParentParent r f g h => of_name (via_parent_parent t r f g h)
+  | PLikeThis n T => ABool (like t n T)
+  | PCatchUnion n T1 T2 => match get_class t n with Some c => of_bool (catch_union t T1 T2 n c) | None => AErr end
+  | PSEntrySelf c f s => of_name (via_sentry_self t c f s)
+  | PSEntryStatic c f s => of_name (via_sentry_static t c f s)
+  | PSEntryParent c f g => of_name (via_sentry_parent t c f g)
   end.
 
 Definition spec_ans (t : table) (p : probe) : ans :=
@@ -64,6 +75,11 @@ Definition spec_ans (t : table) (p : probe) : ans :=
       AName (match resolve t r f with
              | Some d => match resolve_parent t d g with Some e => resolve_parent t e h | None => None end
              | None => None end)
+  | PLikeThis n T => ABool (like_spec t n T)
+  | PCatchUnion n T1 T2 => ABool (is_ab t n T1 || is_ab t n T2)
+  | PSEntrySelf c f s => AName (match resolve t c f with Some d => resolve t d s | None => None end)
+  | PSEntryStatic c f s => AName (match resolve t c f with Some _ => resolve t c s | None => None end)
+  | PSEntryParent c f g => AName (match resolve t c f with Some d => resolve_parent t d g | None => None end)
   end.
 
 Definition ans_eqb (a b : ans) : bool :=
